@@ -235,11 +235,17 @@ pub fn eval_pattern_text(cfg: &Cfg, ast: &Node, pat: Vec<u32>, flags: Flags, hay
             return;
         }
     };
+    // the reference program is needed by the properties that compare with the ES semantics; the differential
+    // ones (executor / pipeline / prefilter / entry point) go on without it (e.g. more than 12 groups)
+    let needs_ref = matches!(cfg.prop, Prop::C01 | Prop::C05 | Prop::C09);
     let prog = match refmatch::compile(ast, flags) {
-        Ok(p) => p,
+        Ok(p) => Some(p),
         Err(_) => {
             st.add("patterns_unsupported_by_reference", 1);
-            return;
+            if needs_ref {
+                return;
+            }
+            None
         }
     };
     st.add("patterns_evaluated", 1);
@@ -318,7 +324,7 @@ pub fn eval_pattern_text(cfg: &Cfg, ast: &Node, pat: Vec<u32>, flags: Flags, hay
     for hay in hays {
         let n = hay.cps.len();
         let rt = if matches!(cfg.prop, Prop::C01 | Prop::C05 | Prop::C09) {
-            let rt = ref_table(&prog, hay, cfg.ref_limit);
+            let rt = ref_table(prog.as_ref().unwrap(), hay, cfg.ref_limit);
             if rt.cut {
                 st.add("reference_cut", 1);
                 if cfg.prop != Prop::C05 {
@@ -496,7 +502,7 @@ pub fn eval_pattern_text(cfg: &Cfg, ast: &Node, pat: Vec<u32>, flags: Flags, hay
                                     }
                                     // each step pushes at most a few records (a loop entry pushes three, a
                                     // successful lookaround one per enclosed group)
-                                    let per_step = prog.ngroups as u64 + 4;
+                                    let per_step = prog.as_ref().map(|p| p.ngroups).unwrap_or(0) as u64 + 4;
                                     if bts > per_step * steps + 4 {
                                         vio!("backtrack store not bounded by the search performed", hay, bs, J::s(&format!("<= {} x {} steps", per_step, steps)), J::u(bts));
                                     }
@@ -928,6 +934,13 @@ pub fn scale_family(thorough: bool) -> Vec<(String, &'static str, Vec<String>)> 
             out.push((format!("^{}{{2}}$", body), "", vec!["".into(), "xy".into(), "xq".into(), "x".into(), "xyq".into()]));
             out.push((format!("{}{{2,}}z", body), "", vec!["zxxz".into(), "xz".into(), "qyxz".into()]));
             out.push((format!("{}+?z", body), "", vec!["zxyz".into(), "z".into()]));
+        }
+        // quantified class strings over a long haystack that fails at the very end (each iteration must have
+        // exactly one way to match a string: duplicate alternatives make the search exponential)
+        if n <= 65 {
+            for (p, unit) in [("^(?:[\\q{ab}\\q{ab|cd}])*$", "ab"), ("^(?:[\\q{ab}\\q{ab|cd}])*$", "cd"), ("^(?:[\\q{abc|de}])*$", "de"), ("^(?:[\\q{abc|de}])*$", "abc"), ("^[\\q{ab|a|b}]+$", "ab"), ("^\\p{Emoji_Keycap_Sequence}+$", "9\u{FE0F}\u{20E3}"), ("^(?:[\\p{Emoji_Keycap_Sequence}\\q{9\u{FE0F}\u{20E3}}])+$", "9\u{FE0F}\u{20E3}")] {
+                out.push((p.to_string(), "v", vec![format!("{}!", unit.repeat(n)), unit.repeat(n)]));
+            }
         }
         // long haystacks: loops that iterate n times, matches that start at offset n
         out.push(("(?:(a)|b)*c".into(), "", vec![format!("{}c", "ab".repeat(n)), format!("{}d", "ab".repeat(n))]));
